@@ -1,7 +1,7 @@
 (* C02 driver: one case per line, same protocol as harness/hx_filepiece.cc
      R <page> <min_buffer> <delim> <cr> <api> <srchex|-> <script|->          pipe / read() path
      I <page> <min_buffer> <delim> <cr> <api> <srchex|->                     std::istream backing
-     M <page> <min_buffer> <delim> <cr> <api> <filehex|-> <off> <script|->   regular file (mmap path)
+     M <page> <min_buffer> <delim> <cr> <api> <filehex|-> <off> <script|-> [F0]  regular file (mmap path; F0: the first mmap fails)
    script: comma separated F | S<k> | E | X<errno>
    answer: recs=[hex][hex].. trace=req:ret,.. maps=off:size,.. eof=TT   or   FAIL <kind> *)
 open Model
@@ -58,6 +58,12 @@ let () =
           let p = nat_of_int (int_of_string page) in
           let cap = initial_cap p (nat_of_int (int_of_string minb)) in
           (match fp_open_file p cap (unhex file) (nat_of_int (int_of_string off)) (parse_script script) with
+           | Fail e -> print_endline ("FAIL " ^ err_name e)
+           | Ok s -> finish (z_of_int (int_of_string d)) (cr = "1") s)
+        | ["M"; page; minb; d; cr; _api; file; off; script; "F0"] ->
+          let p = nat_of_int (int_of_string page) in
+          let cap = initial_cap p (nat_of_int (int_of_string minb)) in
+          (match fp_open_file_mmap_fails p cap (unhex file) (nat_of_int (int_of_string off)) (parse_script script) with
            | Fail e -> print_endline ("FAIL " ^ err_name e)
            | Ok s -> finish (z_of_int (int_of_string d)) (cr = "1") s)
         | _ -> print_endline "?"
